@@ -554,3 +554,119 @@ Proof.
   intros [<-|Hin]; [|eapply IH; eauto].
   exists jti. split; [reflexivity|]. unfold client_auth. rewrite Hs. reflexivity.
 Qed.
+
+(** * Histories of one process (C13: "never reused across attempts", over every consumer of the generator) *)
+Definition hist_draws_in (lo hi : N) (d : list (dkind * N)) : Prop := Forall (fun x => lo <= snd x /\ snd x < hi) d.
+
+(* one operation: the counter never goes back, every value drawn lies between the counter before and after, and the
+   values of one operation are distinct draws *)
+Lemma hist_step_bounds c op rnd :
+  let o := hist_step c op rnd in
+  rnd <= hs_rnd o /\ hist_draws_in rnd (hs_rnd o) (hs_draws o) /\ NoDup (map snd (hs_draws o)).
+Proof.
+  cbn zeta. unfold hist_draws_in. destruct op as [q ref replies|r tok psid|q rt| | |]; cbn [hist_step].
+  - unfold hist_login. destruct (matching_ingresses c q) as [|i l].
+    + cbn. split; [lia|]. split; constructor.
+    + pose proof (login_par_atoms_fresh c q rnd ref replies i) as (Hm & _). cbn zeta in Hm. cbn [hs_rnd hs_draws map snd].
+      split; [lia|]. split.
+      * repeat constructor; cbn; lia.
+      * repeat constructor; cbn; intros H; repeat (destruct H as [H|H]; [lia|]); exact H.
+  - unfold hist_callback.
+    destruct (bops_nil (co_back (callback c (fun _ _ => tok) rnd r))); destruct (a_use_secret c);
+      destruct (co_session (callback c (fun _ _ => tok) rnd r)); destruct psid; cbn.
+    all: split; [lia|]. all: split.
+    all: try (repeat constructor; cbn; lia).
+    all: repeat constructor; cbn; intros H; repeat (destruct H as [H|H]; [lia|]); exact H.
+  - unfold hist_logout. destruct (matching_ingresses c q) as [|i l].
+    + cbn. split; [lia|]. split; constructor.
+    + cbn. split; [lia|]. split.
+      * repeat constructor; cbn; lia.
+      * repeat constructor. intros [].
+  - cbn. split; [lia|]. split; constructor.
+  - cbn. split; [lia|]. split; constructor.
+  - cbn. split; [lia|]. split; constructor.
+Qed.
+
+Lemma hist_run_bounds ops rnd :
+  rnd <= snd (hist_run ops rnd) /\ hist_draws_in rnd (snd (hist_run ops rnd)) (fst (hist_run ops rnd)).
+Proof.
+  revert rnd. induction ops as [|[c op] r IH]; intros rnd; cbn [hist_run]; [cbn; split; [lia|constructor]|].
+  pose proof (hist_step_bounds c op rnd) as (H1 & H2 & _). cbn zeta in H1, H2.
+  specialize (IH (hs_rnd (hist_step c op rnd))).
+  destruct (hist_run r (hs_rnd (hist_step c op rnd))) as [d rnd'] eqn:E. cbn [fst snd] in *. destruct IH as [I1 I2].
+  split; [lia|]. unfold hist_draws_in in *. apply Forall_app. split.
+  - eapply Forall_impl; [|exact H2]. cbn. intros x Hx. lia.
+  - eapply Forall_impl; [|exact I2]. cbn. intros x Hx. lia.
+Qed.
+
+(* over ANY history - logins (with or without PAR, succeeding or failing), callbacks (with a provider session id or a
+   generated one, accepted or refused), logouts, logout callbacks, front-channel and local logouts, in any order and under
+   any mix of configurations - all values drawn are pairwise distinct: nonces, states, verifiers, logout states,
+   generated session ids and data keys alike *)
+Theorem hist_run_nodup ops rnd : NoDup (map snd (fst (hist_run ops rnd))).
+Proof.
+  revert rnd. induction ops as [|[c op] r IH]; intros rnd; cbn [hist_run]; [constructor|].
+  pose proof (hist_step_bounds c op rnd) as (_ & H2 & H3). cbn zeta in H2, H3.
+  pose proof (hist_run_bounds r (hs_rnd (hist_step c op rnd))) as [_ Hb].
+  specialize (IH (hs_rnd (hist_step c op rnd))).
+  destruct (hist_run r (hs_rnd (hist_step c op rnd))) as [d rnd'] eqn:E. cbn [fst snd] in *.
+  rewrite map_app. unfold hist_draws_in in *. rewrite Forall_forall in H2, Hb.
+  assert (Hdisj : forall a, In a (map snd (hs_draws (hist_step c op rnd))) -> ~ In a (map snd d)).
+  { intros a Ha Hb'. apply in_map_iff in Ha as (x & <- & Hx). apply in_map_iff in Hb' as (y & Hy & Hyin).
+    specialize (H2 x Hx). specialize (Hb y Hyin). lia. }
+  revert H3 Hdisj. generalize (map snd (hs_draws (hist_step c op rnd))) as l1. intros l1 Hn Hdisj.
+  induction l1 as [|a l1 IHl]; cbn; [exact IH|].
+  inversion Hn as [|? ? Hna Hn']; subst. constructor.
+  - rewrite in_app_iff. intros [H|H]; [contradiction|]. exact (Hdisj a (or_introl eq_refl) H).
+  - apply IHl; [exact Hn'|]. intros b Hb'. apply Hdisj. now right.
+Qed.
+
+(* two draws at different positions of a history are different values, whatever their kinds *)
+Theorem hist_run_positions_distinct ops rnd i j k1 a1 k2 a2 :
+  nth_error (fst (hist_run ops rnd)) i = Some (k1, a1) -> nth_error (fst (hist_run ops rnd)) j = Some (k2, a2) ->
+  i <> j -> a1 <> a2.
+Proof.
+  intros Hi Hj Hne Heq. subst a2. pose proof (hist_run_nodup ops rnd) as Hn.
+  rewrite NoDup_nth_error in Hn. apply Hne, Hn.
+  - rewrite map_length. apply nth_error_Some. rewrite Hi. discriminate.
+  - rewrite !nth_error_map, Hi, Hj. reflexivity.
+Qed.
+
+(* the login operation of a history is the login of (1)-(4): its draws are the nonce / state / verifier of the authorization
+   request and of the login cookie *)
+Theorem hist_login_is_login c q ref replies rnd i l :
+  matching_ingresses c q = i :: l ->
+  let o := hist_step c (HLogin q ref replies) rnd in
+  In (login_par c q rnd ref replies i) (login_results c q rnd ref replies) /\
+  hs_ok o = lo_ok (login_par c q rnd ref replies i) /\ hs_rnd o = lo_rnd (login_par c q rnd ref replies i) /\
+  hs_draws o = [(DNonce, rnd); (DState, rnd + 1); (DVerifier, rnd + 2)] /\
+  In (PNonce, VRnd rnd) (auth_params c q i rnd) /\ In (PState, VRnd (rnd + 1)) (auth_params c q i rnd) /\
+  In (PCodeChallenge, VS256 (rnd + 2)) (auth_params c q i rnd).
+Proof.
+  intros Hm. cbn zeta. cbn [hist_step]. unfold hist_login, login_results. rewrite Hm. cbn [hs_ok hs_rnd hs_draws].
+  split; [now left|]. repeat split; unfold auth_params; cbn; auto 12.
+Qed.
+
+(* operations that draw nothing leave the counter where it is *)
+Theorem hist_no_draw_ops c rnd :
+  hist_step c HLogoutCallback rnd = hist_nothing true rnd /\ hist_step c HLogoutFrontChannel rnd = hist_nothing true rnd /\
+  hist_step c HLogoutLocal rnd = hist_nothing true rnd /\
+  (forall q ref replies, matching_ingresses c q = [] -> hist_step c (HLogin q ref replies) rnd = hist_nothing false rnd) /\
+  (forall r tok psid e, callback_checks c r = inl e -> hist_step c (HCallback r tok psid) rnd = hist_nothing false rnd).
+Proof.
+  repeat split.
+  - intros q ref replies Hm. cbn. unfold hist_login. now rewrite Hm.
+  - intros r tok psid e He. cbn. unfold hist_callback, callback. rewrite He. destruct e; reflexivity.
+Qed.
+
+(* a callback that creates a session for a provider that issues no session id draws the id (and the data key) as further
+   NEW values *)
+Theorem hist_callback_generated_sid c r tok rnd :
+  let o := hist_step c (HCallback r tok false) rnd in
+  hs_ok o = true -> exists a, hs_draws o = [(DSessionId, a); (DDataKey, a + 1)] /\ rnd <= a /\ hs_rnd o = a + 2.
+Proof.
+  cbn zeta. cbn [hist_step]. unfold hist_callback.
+  destruct (co_session (callback c (fun _ _ => tok) rnd r)); cbn [hs_ok]; [|discriminate]. intros _.
+  eexists. cbn [hs_draws hs_rnd app]. split; [reflexivity|].
+  destruct (bops_nil _); destruct (a_use_secret c); split; lia.
+Qed.
